@@ -147,6 +147,12 @@ def py_check(case, obs):
 def nontrivial(case, obs):
     return bool(obs.get('open_ok')) or case.get('cut') is not None
 
+LEVEL_TEXT += (' CLOUD/RAIN (Model/CloudRain.v, Proofs/CloudRainProofs.v; Memmap reader hand-modelled incl. the size-based layout guess for nvars in [5, 3, 5], '
+               'the reshape to whole steps and the marker check of every record): C09_cloudrain_dec_enc; C09_cloudrain_reader_presents_content - the reader presents '
+               'the content of every well-formed file whose size is unambiguous (every 5-field file; every 3-field file whose data size is not also a whole number of '
+               '5-field steps); C09_cloudrain_ambiguous_size_refuted - the inherent ambiguity is real (1x2 cells, one layer, three 3-field steps = two 5-field steps; '
+               'known finding cloud-rain-size-ambiguity, region 21, replays on the library: TSTEP=2, VAR=5, no error). Cases: constructor CD (F = encoder, reader model '
+               'incl. the guess, TFLAG and re-written bytes whenever the presented time words are time words of the content; S = presented == content).')
 
 def shrink(case):
     c = case['content']
